@@ -44,10 +44,10 @@ TEXT["C08"] = ("Lean theorems: the replacers never produce a panic outcome (ever
          "6 C08", "Lean 4 proof (totality / no-panic / well-founded scanner) + differential and watchdog streams on malformed input")
 TEXT["C13"] = ("Lean theorems: '#' lines never reach the section state machine and descriptions are exactly the run above the header; names are only stored; the association of '...' depends on patch positions only through their order (connectDots commutes with every order-preserving relabelling). An unchanged line as a '-'/'+' pair or once with a blank gives each version the same bytes up to that blank (splitPatch model, stream split). Tie: layout transformations of generated patches must leave the real engine's canonical result unchanged; descriptions via section.Split vs model. Partial: go/scanner+go/parser layout-insensitivity is assumed.",
          "6 C13", "Lean 4 proof (section model, relabelling invariance) + metamorphic layout stream on the real engine")
-TEXT["C19"] = ("Lean theorems: a rejected change name is reported at the byte that is the offending character of that header line; junk where a header is expected at column 1 of its line; the metavariable scratch buffer is the patch lines byte for byte (offset mapping). Tie: section.Split, parse.Parse, engine.Compile and patch.Parse on multi-change patches with one injected fault vs the Lean model (Sec.split, parseMeta over go/scanner's tokens, compileMetaErrs, mapPos) and vs the injection point; CLI exit/stderr/no rewrite.",
+TEXT["C19"] = ("Lean theorems: a patch source that does not load is the first that fails, everything before it loaded, and no program is handed over (model of the loader; stream load: exit status, the diagnostic names the source, nothing rewritten); a rejected change name is reported at the byte that is the offending character of that header line; junk where a header is expected at column 1 of its line; the metavariable scratch buffer is the patch lines byte for byte (offset mapping). Tie: section.Split, parse.Parse, engine.Compile and patch.Parse on multi-change patches with one injected fault vs the Lean model (Sec.split, parseMeta over go/scanner's tokens, compileMetaErrs, mapPos) and vs the injection point; CLI exit/stderr/no rewrite.",
          "6 C19", "Lean 4 proof over section/meta model + differential front stream with injected faults")
 
-TEXT["C09"] = ("Lean theorems: running a ++ b is running a then b on a's result (sequential composition), a non-matching change is a no-op, a failing step is reported; -p before -P in the order given. Tie: per-change decisions of the real engine vs the model on chains where change k+1 matches only the output of change k; through the CLI the combined run equals the chain of single-change runs (canonical trees, redundant parentheses removed) for every way of supplying the patches. Theorem combined_eq_chain: the chain equals the combined run whenever every intermediate tree is a fixed point of print + re-parse; the harness evaluates that hypothesis on the real trees, and where it fails the known finding F7 applies (F25: comment placement in a printed intermediate file). Partial: go/printer and go/parser are parameters.",
+TEXT["C09"] = ("Lean theorems: running a ++ b is running a then b on a's result (sequential composition), a non-matching change is a no-op, a failing step is reported; the loader (model of loader.go/loadPatches): the run is the whole plan in order - stdin if no flag, -p files, then the non-empty lines of the -P file - and a -P list of paths loads exactly what the same paths load as -p flags (stream load: the binary on random command lines and list files against the model). Tie: per-change decisions of the real engine vs the model on chains where change k+1 matches only the output of change k; through the CLI the combined run equals the chain of single-change runs (canonical trees, redundant parentheses removed) for every way of supplying the patches. Theorem combined_eq_chain: the chain equals the combined run whenever every intermediate tree is a fixed point of print + re-parse; the harness evaluates that hypothesis on the real trees, and where it fails the known finding F7 applies (F25: comment placement in a printed intermediate file). Partial: go/printer and go/parser are parameters.",
          "6 C09", "Lean 4 proof (sequential composition of changes) + differential decisions + CLI combined-vs-chain metamorphic check")
 TEXT["C10"] = ("Lean theorems: package guard, import table rows (unnamed / literal name incl. dot and blank / identifier-metavariable name), any import of the path may satisfy the guard, all listed imports required, failed guard = no-op. Tie: exhaustive cross product of patch-side x file-side import forms x package clause x layout against the README table, the real engine and the model.",
          "6 C10", "Lean 4 proof over import/package guard model + exhaustive cross-product tie")
